@@ -18,7 +18,6 @@ import (
 	"strings"
 	"testing"
 
-
 	"Havoc/pkg/profile/yaotl/hclsyntax"
 	"Havoc/pkg/profile/yaotl/hclwrite"
 
